@@ -9,6 +9,27 @@ def repo_commits(prefix):
     return [l.split()[0] for l in out.splitlines() if l.split(" ", 1)[1].startswith(prefix)]
 
 CLAIMS = {
+    "C06": dict(
+        level="exploration",
+        technique="stateful property-based testing of kira::Parameter<T> and the tweener modulator against an independent tween model (own easing curves, exact start localisation) over generated set()/update() histories",
+        text="Histories of overlapping set() calls and update steps (zero / sub-update / long durations, all easings, immediate / delayed / clock starts, ten tweenable types plus the tweener modulator) are checked after every update: exact hold before the start, value on the model curve within float tolerance, exactly the target after the end, never outside [start, target], continuity of previous/interpolated values. The timing allowance of the property (one update for delayed and clock starts) is encoded in where the model lets the tween start. Random search with shrinking.",
+        note="Parameters are driven directly with MockInfoBuilder (the mock clock shows end-of-update time, as the renderer does). The start value of a retarget is read from the parameter itself.",
+        design="5/C06",
+    ),
+    "C01": dict(
+        level="exploration",
+        technique="stateful property-based testing: generated manager/handle operation programs interleaved with device callbacks, invariant monitors (counting allocator, panic capture, watchdog, output scan) after every callback, differential 1/2/k-channel rendering",
+        text="Random programs over the whole public API (every resource kind, every built-in effect incl. nested delay feedback, every handle setter with generated tweens, drops, sample-rate changes, streaming sounds with hook-controlled decoder threads) are executed against a real AudioManager whose backend owns the Renderer; every callback is monitored for panics, heap allocation/free, unwritten / non-finite / out-of-range samples, non-silent extra channels, and a watchdog catches callbacks that never return; deterministic programs are re-rendered with 1 and k channels and compared bit-for-bit. A search with shrinking over a very large space, not a proof of absence.",
+        note="The callback contract of the cpal backend is reproduced by a custom Backend (on_start_processing + process on one thread). Arguments are finite and inside a stated magnitude box; known-finding input classes are excluded by construction and counted.",
+        design="5/C01",
+    ),
+    "C04": dict(
+        level="exploration",
+        technique="model-based property testing: independent f64 reference player (transport + 4-point Hermite) run side by side with Box<dyn Sound>, bit-exact comparison at rate +-1, bounded-exhaustive enumeration of all small cases",
+        text="Every case is compared frame by frame with a reference player written from the documented transport semantics: bit-for-bit (including first frame, loop wraps, reverse, slice edges, exact silence after the end, Stopped timing) when rate is +-1 at equal sample rates, within 1e-5 otherwise; seeks, loop-region changes and rate changes at arbitrary chunk boundaries; reported position and seek landing within one frame. All small cases (length <= 6 quick, <= 9 thorough) are enumerated exhaustively; larger ones are random.",
+        note="The sound is driven directly (SoundData::into_sound + MockInfoBuilder), as the property's observe_at says. Device rates with R*(1/R) != 1.0 in f64 are a known finding and excluded from the bit-exact mode.",
+        design="5/C04",
+    ),
     "C13": dict(
         level="exploration",
         technique="property-based testing: metamorphic relations (dry identity, zero-in/zero-out, superposition, re-partitioning) on Box<dyn Effect> over generated parameters, rates, signals and slice partitions",
